@@ -233,8 +233,12 @@ func (c *completion) complete(args []string) []Completion {
 					// it consumes all subsequent args).
 					s.positional = s.positional[1:]
 				}
-			} else if cmd, ok := s.lookup.commands[arg]; ok {
+			} else if cmd, ok := s.lookup.commands[arg]; ok && len(s.retargs) == 0 {
 				cmd.fillParseState(s)
+			} else {
+				// An ordinary argument. Like the parser, do not recognize
+				// commands anymore after it
+				s.retargs = append(s.retargs, arg)
 			}
 
 			opt = nil
@@ -279,7 +283,7 @@ func (c *completion) complete(args []string) []Completion {
 	} else if len(s.positional) > 0 {
 		// Complete for positional argument
 		ret = c.completeValue(s.positional[0].value, "", lastarg)
-	} else if len(s.command.commands) > 0 {
+	} else if len(s.command.commands) > 0 && len(s.retargs) == 0 {
 		// Complete for command
 		ret = c.completeCommands(s, lastarg)
 	}
